@@ -222,83 +222,99 @@ class Collector:
 # (1) exhaustive range against the segmented sieve
 
 
-def explore_sieve(run, col, exe, limit_log2, budget_s):
-    """Priority order: (A) everything (is_prime, find_prime_factor, pseudoprime search) on every n
-    below 2^min(limit,28); (B) is_prime on the rest up to 2^limit; (C) find_prime_factor on the rest,
-    ascending, while the budget lasts.  MODE bits: 1 is_prime, 2 factor, 4 pseudoprime search."""
-    t_end = run.elapsed() + budget_s
+class SieveSweep:
+    """MODE bits of the sieve worker: 1 is_prime, 2 find_prime_factor, 4 pseudoprime search.
+    Tasks are (mode, lo, hi, est_seconds); a task is skipped when less than est is left."""
+
+    def __init__(self, run, col, exe, limit_log2):
+        self.run, self.col, self.exe, self.limit_log2 = run, col, exe, limit_log2
+        self.done = {1: [], 2: [], 4: []}
+        self.res = []
+        self.planned = 0
+
+    def sweep(self, order, budget_s, timeout):
+        run = self.run
+        t_end = run.elapsed() + budget_s
+        self.planned += len(order)
+
+        def job(task):
+            mode, lo, h, est = task
+            if min(run.time_left(), t_end - run.elapsed()) < est:
+                return None
+            return task, run_bin(self.exe, [lo, h, mode], timeout=timeout)
+
+        new = []
+        for item in core.pmap(job, order):
+            if item is None:
+                continue
+            (mode, lo, h, est), r = item
+            for m in (1, 2, 4):
+                if mode & m:
+                    self.done[m].append((lo, h))
+            self.res.append(r)
+            new.append(r)
+        self.col.add_all(merge(new).get("V", []), "sieve sweep")
+
+    def coverage(self):
+        m = merge(self.res)
+        done = self.done
+
+        def prefix(lst):
+            """largest H such that [0, H) is completely covered"""
+            H = 0
+            for lo, h in sorted(lst):
+                if lo != H:
+                    break
+                H = h
+            return H
+
+        st = m.get("S", [])
+        tot = lambda k: sum(s[k] for s in st)
+        spsp2 = sorted(int(x) for p in m.get("P", []) for x in p["spsp2"])
+        slpsp = sorted(int(x) for p in m.get("P", []) for x in p["slpsp"])
+        cov = {
+            "sieve_limit_log2": self.limit_log2,
+            "sieve_is_prime_exhaustive_below": prefix(done[1]),
+            "sieve_find_prime_factor_exhaustive_below": prefix(done[2]),
+            "sieve_pseudoprime_search_exhaustive_below": prefix(done[4]),
+            "sieve_tasks_done": len(self.res), "sieve_tasks_planned": self.planned,
+            "sieve_is_prime_evals": tot("evals_prime"),
+            "sieve_factor_evals": tot("evals_factor"),
+            "sieve_primes_seen": sum(s["primes"] for s in st if s["fmode"] & 1),
+            "sieve_factor_pollard_or_big": tot("factor_big"),
+            "strong_base2_pseudoprimes_found": len(spsp2),
+            "strong_lucas_pseudoprimes_found": len(slpsp),
+            "pseudoprimes_to_both_tests": tot("both_psp"),
+            "au_miller_rabin2_agrees_on_pseudoprimes": tot("au_mr2_agree"),
+            "au_strong_lucas_agrees_on_pseudoprimes": tot("au_lucas_agree"),
+            "component_divergence_on_pseudoprimes": tot("component_div"),
+            "pseudoprime_samples": {"spsp2": spsp2[:5] + spsp2[-3:], "slpsp": slpsp[:5] + slpsp[-3:]},
+        }
+        nontriv = sum(1 for s in st if (s["fmode"] & 1) and s["primes"] > 0 and s["composites"] > 0)
+        return cov, cov["sieve_is_prime_evals"] + cov["sieve_factor_evals"], nontriv
+
+
+def sieve_plan(limit_log2):
+    """-> (is_prime tasks, factor tasks) in priority order."""
     hi = 1 << limit_log2
     mid = min(hi, 1 << 28)
     s1, s2 = 1 << 22, 1 << 24
-    order = [(7, lo, min(lo + s1, mid), 25) for lo in range(0, mid, s1)]
-    order += [(1, lo, min(lo + s2, hi), 40) for lo in range(mid, hi, s2)]
-    order += [(2, lo, min(lo + s2, hi), 120) for lo in range(mid, hi, s2)]
-    chunks = order
-    done = {1: [], 2: [], 4: []}
-
-    def job(task):
-        mode, lo, h, est = task
-        if min(run.time_left(), t_end - run.elapsed()) < est:
-            return None
-        r = run_bin(exe, [lo, h, mode], timeout=3600)
-        return task, r
-
-    res = []
-    for item in core.pmap(job, order):
-        if item is None:
-            continue
-        (mode, lo, h, est), r = item
-        for m in (1, 2, 4):
-            if mode & m:
-                done[m].append((lo, h))
-        res.append(r)
-    m = merge(res)
-    col.add_all(m.get("V", []), "sieve sweep")
-
-    def prefix(lst):
-        """largest H such that [0, H) is completely covered"""
-        H = 0
-        for lo, h in sorted(lst):
-            if lo != H:
-                break
-            H = h
-        return H
-
-    st = m.get("S", [])
-    tot = lambda k: sum(s[k] for s in st)
-    spsp2 = sorted(int(x) for p in m.get("P", []) for x in p["spsp2"])
-    slpsp = sorted(int(x) for p in m.get("P", []) for x in p["slpsp"])
-    cov = {
-        "sieve_limit_log2": limit_log2,
-        "sieve_is_prime_exhaustive_below": prefix(done[1]),
-        "sieve_find_prime_factor_exhaustive_below": prefix(done[2]),
-        "sieve_pseudoprime_search_exhaustive_below": prefix(done[4]),
-        "sieve_tasks_done": len(res), "sieve_tasks_planned": len(chunks),
-        "sieve_is_prime_evals": tot("evals_prime") if st else 0,
-        "sieve_factor_evals": tot("evals_factor") if st else 0,
-        "sieve_primes_seen": sum(s["primes"] for s in st if s["fmode"] & 1),
-        "sieve_factor_pollard_or_big": tot("factor_big") if st else 0,
-        "strong_base2_pseudoprimes_found": len(spsp2),
-        "strong_lucas_pseudoprimes_found": len(slpsp),
-        "pseudoprimes_to_both_tests": tot("both_psp") if st else 0,
-        "au_miller_rabin2_agrees_on_pseudoprimes": tot("au_mr2_agree") if st else 0,
-        "au_strong_lucas_agrees_on_pseudoprimes": tot("au_lucas_agree") if st else 0,
-        "component_divergence_on_pseudoprimes": tot("component_div") if st else 0,
-        "pseudoprime_samples": {"spsp2": spsp2[:5] + spsp2[-3:], "slpsp": slpsp[:5] + slpsp[-3:]},
-    }
-    nontriv = sum(1 for s in st if (s["fmode"] & 1) and s["primes"] > 0 and s["composites"] > 0)
-    evals = cov["sieve_is_prime_evals"] + cov["sieve_factor_evals"]
-    return cov, evals, nontriv
+    first = [(5, lo, min(lo + s1, mid), 20) for lo in range(0, mid, s1)]
+    first += [(1, lo, min(lo + s2, hi), 40) for lo in range(mid, hi, s2)]
+    second = [(2, lo, min(lo + s1, mid), 25) for lo in range(0, mid, s1)]
+    second += [(2, lo, min(lo + s2, hi), 120) for lo in range(mid, hi, s2)]
+    return first, second
 
 
 # ------------------------------------------------------------------------------------------------
 # (2) structured 64-bit families
 
 
-def explore_families(run, col, exe, tier):
+def explore_families(run, col, exe, tier, do_factor, timeout):
     args = [60, 16, 4, 8192] if tier == "quick" else [300, 64, 64, 65536]
     np_ = core.NCPU * 2
-    m = merge(core.pmap(lambda p: run_bin(exe, [p, np_] + args, timeout=3600), range(np_)))
+    m = merge(core.pmap(lambda p: run_bin(exe, [p, np_] + args + [int(do_factor)], timeout=timeout),
+                        range(np_)))
     col.add_all(m.get("V", []), "structured 64-bit families")
     fam = {}
     for s in m.get("S", []):
@@ -313,7 +329,8 @@ def explore_families(run, col, exe, tier):
     evals = sum(d["evals_prime"] + d["evals_factor"] for d in fam.values())
     both = (sum(d["primes"] for d in fam.values()) > 0) + (sum(d["composites"] for d in fam.values()) > 0)
     nontriv = len([1 for d in fam.values() if d["evals_prime"] > 0]) if both == 2 else 0
-    return {"families": fam, "family_params": dict(zip(["W", "NEAR", "HARD", "PSPWIN"], args)),
+    return {"families": fam, "families_with_find_prime_factor": bool(do_factor),
+            "family_params": dict(zip(["W", "NEAR", "HARD", "PSPWIN"], args)),
             "family_samples": m.get("X", [])[:24]}, evals, nontriv
 
 
@@ -446,7 +463,7 @@ def explore_wrapsq(run, col, exe, budget, tag):
             for (j, k, a, b) in pieces[i::nfiles]:
                 f.write("%d %d %d %d\n" % (j, k, a, b))
         files.append(p)
-    m = merge(core.pmap(lambda p: run_bin(exe, [p], timeout=7200), files))
+    m = merge(core.pmap(lambda p: run_bin(exe, [p, 0], timeout=3000), files))
     if not m.get("T") or not all(t["solver_selftest_ok"] for t in m["T"]):
         raise core.InfraError("2-adic square-root solver failed its brute-force self-test")
     col.add_all(m.get("V", []), "is_perfect_square wrap-collision search (Hensel lifting)")
